@@ -170,15 +170,14 @@ Proof.
   - destruct (mget (q_mindecl q) d); cbn; [apply Z.leb_le; auto|reflexivity].
 Qed.
 
-Lemma anc_ok_spec a lim mreq : anc_ok a lim mreq = true <-> anc_within a lim mreq.
+Lemma anc_ok_spec a lim rk mreq : anc_ok a lim rk mreq = true <-> anc_within a lim rk mreq.
 Proof.
   unfold anc_ok, anc_within. rewrite all_dims_spec.
   split; intros H d; specialize (H d).
-  - intros Hd Hp. rewrite Hd in H. cbn in H.
-    destruct (0 <? vget mreq d) eqn:E; [cbn in H; lia|lia].
+  - intros Hd Hp. rewrite Hd, Hp in H. cbn in H. lia.
   - destruct (mget (q_decl a) d); cbn; [|reflexivity].
-    destruct (0 <? vget mreq d) eqn:E; cbn; [|reflexivity].
-    apply Z.leb_le. apply H; [reflexivity|lia].
+    destruct (mget rk d) eqn:E; cbn; [|reflexivity].
+    apply Z.leb_le. apply H; reflexivity.
 Qed.
 
 Lemma admissibleb_spec chk p q anc lim :
@@ -235,8 +234,8 @@ Definition exceeds_self (q : quota) (lim mreq : vec) : Prop :=
   exists d, mget (q_decl q) d = true /\ vget lim d < vget (q_used q) d + vget mreq d.
 Definition exceeds_np (q : quota) (mreq : vec) : Prop :=
   exists d, mget (q_mindecl q) d = true /\ vget (q_min q) d < vget (q_npused q) d + vget mreq d.
-Definition exceeds_anc (a : quota) (lim mreq : vec) : Prop :=
-  exists d, mget (q_decl a) d = true /\ 0 < vget mreq d
+Definition exceeds_anc (a : quota) (lim : vec) (rk : mask) (mreq : vec) : Prop :=
+  exists d, mget (q_decl a) d = true /\ mget rk d = true
             /\ vget lim d < vget (q_used a) d + vget mreq d.
 
 Lemma self_ok_false q lim mreq : self_ok q lim mreq = false -> exceeds_self q lim mreq.
@@ -251,11 +250,11 @@ Proof.
   exists d. destruct (mget (q_mindecl q) d); cbn in Hd; [|discriminate].
   split; [reflexivity|lia].
 Qed.
-Lemma anc_ok_false a lim mreq : anc_ok a lim mreq = false -> exceeds_anc a lim mreq.
+Lemma anc_ok_false a lim rk mreq : anc_ok a lim rk mreq = false -> exceeds_anc a lim rk mreq.
 Proof.
   unfold anc_ok. intro H. apply all_dims_false in H. destruct H as [d Hd].
   exists d. destruct (mget (q_decl a) d); cbn in Hd; [|discriminate].
-  destruct (0 <? vget mreq d) eqn:E; cbn in Hd; [|discriminate].
+  destruct (mget rk d) eqn:E; cbn in Hd; [|discriminate].
   repeat split; lia.
 Qed.
 
@@ -264,7 +263,8 @@ Lemma admission_reject_witness cfg st p q anc :
   let mreq := vmask (q_decl q) (p_req p) in
   exceeds_self q (limit_of cfg st q) mreq
   \/ (p_np p = true /\ exceeds_np q mreq)
-  \/ (chk_parent cfg = true /\ exists a, In a anc /\ exceeds_anc a (limit_of cfg st a) mreq).
+  \/ (chk_parent cfg = true
+      /\ exists a, In a anc /\ exceeds_anc a (limit_of cfg st a) (req_keys q p) mreq).
 Proof.
   unfold admission. cbv zeta.
   destruct (self_ok q (limit_of cfg st q) (vmask (q_decl q) (p_req p))) eqn:Es; cbn [negb andb orb].
